@@ -452,6 +452,27 @@ func (c *FnCtx) envVal(env *Env, v ssa.Value) Val {
 	return c.val(env.fr, v)
 }
 
+func (c *FnCtx) loopRange(env *Env) *rangeState {
+	if env.loop == nil {
+		return nil
+	}
+	for _, b := range env.fr.fn.Blocks {
+		if !env.loop.body[b] {
+			continue
+		}
+		for _, ins := range b.Instrs {
+			if nx, ok := ins.(*ssa.Next); ok {
+				if it, ok := env.fr.vals[nx.Iter]; ok {
+					if rs := c.ranges[it.E]; rs != nil {
+						return rs
+					}
+				}
+			}
+		}
+	}
+	return nil
+}
+
 func (c *FnCtx) loopCount(env *Env) Val {
 	for _, p := range env.loop.phis {
 		if p.Comment == "rangeindex" {
@@ -760,6 +781,18 @@ func (c *FnCtx) evalCall(env *Env, x *ECall) Val {
 		ne := *env
 		ne.st = env.loop.pre
 		return c.eval(&ne, x.Args[0])
+	case "rkey", "ridx":
+		// the ghost enumeration of a range over a map (loop invariants only): rkey(j) is the j-th key visited,
+		// ridx(key) the position at which a present key is visited; a bijection between [0,n) and the key set
+		rs := c.loopRange(env)
+		if rs == nil {
+			panic(specError(x.Fun + "() outside the invariant of a range-over-map loop"))
+		}
+		v := arg(0)
+		if x.Fun == "rkey" {
+			return Val{T: rs.mapT.Key(), E: "(select " + rs.keys + " " + v.E + ")"}
+		}
+		return Val{T: tInt, E: "(select " + rs.idx + " " + v.E + ")"}
 	case "len":
 		v := arg(0)
 		switch vt := v.T.Underlying().(type) {
@@ -785,7 +818,7 @@ func (c *FnCtx) evalCall(env *Env, x *ECall) Val {
 		return Val{T: tBool, E: "(and (not (= " + m.E + " 0)) (select (select " + c.heapGet(env.st, has) + " " + m.E + ") " + k.E + "))"}
 	case "istype":
 		v := arg(0)
-		tn := x.Args[1].(*EType).T
+		tn := typeArgText(x.Args[1])
 		t := c.eng.resolveType(env.specPkg, tn)
 		if t == nil {
 			panic(specError("unknown type " + tn))
@@ -793,7 +826,7 @@ func (c *FnCtx) evalCall(env *Env, x *ECall) Val {
 		return Val{T: tBool, E: fmt.Sprintf("(= (i-tag %s) %d)", v.E, c.ty.TypeID(t))}
 	case "cast":
 		v := arg(0)
-		tn := x.Args[1].(*EType).T
+		tn := typeArgText(x.Args[1])
 		t := c.eng.resolveType(env.specPkg, tn)
 		if t == nil {
 			panic(specError("unknown type " + tn))
@@ -992,4 +1025,19 @@ func (c *FnCtx) baselineName(env *Env, name string) (Val, bool) {
 		}
 	}
 	return Val{}, false
+}
+
+// typeArgText: the type argument of istype/cast, written `*T`, `[]T` (parsed as EType) or as a bare / qualified name.
+func typeArgText(e Expr) string {
+	switch t := e.(type) {
+	case *EType:
+		return t.T
+	case *EIdent:
+		return t.Name
+	case *ESel:
+		if id, ok := t.X.(*EIdent); ok {
+			return id.Name + "." + t.Name
+		}
+	}
+	panic(specError("type argument expected"))
 }
